@@ -108,6 +108,7 @@ class Ctx:
             'violations': [v[0] for v in self.violations],
             'notes': self.notes,
             'agreements_up_to_float_drift': core.DRIFT,
+            'outside_the_finite_range_not_judged': core.NONFINITE,
         }
         if extra:
             cov.update(extra)
